@@ -27,6 +27,7 @@ import (
 	"encoding/json"
 	"fmt"
 	"math/rand"
+	"os"
 	"runtime"
 	"sort"
 	"strings"
@@ -45,6 +46,7 @@ import (
 
 	"github.com/obolnetwork/charon/core"
 	"github.com/obolnetwork/charon/core/aggsigdb"
+	cqbft "github.com/obolnetwork/charon/core/consensus/qbft"
 	"github.com/obolnetwork/charon/core/dutydb"
 	"github.com/obolnetwork/charon/core/parsigdb"
 	"github.com/obolnetwork/charon/core/parsigex"
@@ -78,10 +80,12 @@ type valKeys struct {
 }
 
 type world struct {
-	bmock beaconmock.Mock
-	keys  map[int][]valKeys // n -> validators
-	spe   uint64
-	other tbls.PrivateKey
+	bmock  beaconmock.Mock
+	bmock2 beaconmock.Mock // 1 s slots, genesis = start of the test: aligns the eager round timers with real time
+	t0     time.Time
+	keys   map[int][]valKeys // n -> validators
+	spe    uint64
+	other  tbls.PrivateKey
 }
 
 func quorum(n int) int { return (2*n + 2) / 3 }
@@ -135,6 +139,11 @@ func newWorld(t *testing.T) *world {
 	}
 	w.bmock = bmock
 	w.spe, err = bmock.SlotsPerEpoch(context.Background())
+	if err != nil {
+		t.Fatal(err)
+	}
+	w.t0 = time.Now().Truncate(time.Second)
+	w.bmock2, err = beaconmock.New(t.Context(), beaconmock.WithValidatorSet(set), beaconmock.WithGenesisTime(w.t0), beaconmock.WithSlotDuration(time.Second))
 	if err != nil {
 		t.Fatal(err)
 	}
@@ -257,30 +266,44 @@ type event struct {
 	err    error
 }
 
-type recTracker struct{ ev *[]event }
+type recTracker struct {
+	ev       *[]event
+	mu       *sync.Mutex
+	onDutyDB func(core.Duty, core.UnsignedDataSet, error)
+}
+
+func (r recTracker) add(e event) {
+	r.mu.Lock()
+	defer r.mu.Unlock()
+	*r.ev = append(*r.ev, e)
+}
 
 func (recTracker) FetcherFetched(core.Duty, core.DutyDefinitionSet, error)  {}
 func (recTracker) ConsensusProposed(core.Duty, core.UnsignedDataSet, error) {}
-func (r recTracker) DutyDBStored(d core.Duty, _ core.UnsignedDataSet, err error) {
-	*r.ev = append(*r.ev, event{kind: "dutydb", duty: d, err: err})
+func (r recTracker) DutyDBStored(d core.Duty, set core.UnsignedDataSet, err error) {
+	if r.onDutyDB != nil {
+		r.onDutyDB(d, set, err)
+		return
+	}
+	r.add(event{kind: "dutydb", duty: d, err: err})
 }
 func (r recTracker) ParSigDBStoredInternal(d core.Duty, s core.ParSignedDataSet, err error) {
-	*r.ev = append(*r.ev, event{kind: "internal", duty: d, parset: s, err: err})
+	r.add(event{kind: "internal", duty: d, parset: s, err: err})
 }
 func (r recTracker) ParSigExBroadcasted(d core.Duty, s core.ParSignedDataSet, err error) {
-	*r.ev = append(*r.ev, event{kind: "psxbcast", duty: d, parset: s, err: err})
+	r.add(event{kind: "psxbcast", duty: d, parset: s, err: err})
 }
 func (r recTracker) ParSigDBStoredExternal(d core.Duty, s core.ParSignedDataSet, err error) {
-	*r.ev = append(*r.ev, event{kind: "external", duty: d, parset: s, err: err})
+	r.add(event{kind: "external", duty: d, parset: s, err: err})
 }
 func (r recTracker) SigAggAggregated(d core.Duty, s map[core.PubKey][]core.ParSignedData, err error) {
-	*r.ev = append(*r.ev, event{kind: "sigagg", duty: d, aggin: s, err: err})
+	r.add(event{kind: "sigagg", duty: d, aggin: s, err: err})
 }
 func (r recTracker) AggSigDBStored(d core.Duty, s core.SignedDataSet, err error) {
-	*r.ev = append(*r.ev, event{kind: "aggsigdb", duty: d, signed: s, err: err})
+	r.add(event{kind: "aggsigdb", duty: d, signed: s, err: err})
 }
 func (r recTracker) BroadcasterBroadcast(d core.Duty, s core.SignedDataSet, err error) {
-	*r.ev = append(*r.ev, event{kind: "bcast", duty: d, signed: s, err: err})
+	r.add(event{kind: "bcast", duty: d, signed: s, err: err})
 }
 func (recTracker) InclusionChecked(core.Duty, core.PubKey, core.SignedData, error) {}
 
@@ -334,6 +357,10 @@ type node struct {
 	sched   *stubSched
 	fetch   *stubFetch
 	cons    *stubCons
+	rcons   *cqbft.Consensus // real consensus component (real mode)
+	host    *fakeHost
+	ctx     context.Context
+	cancel  context.CancelFunc
 	psx     *stubParSigEx
 	bc      *stubBcast
 	events  []event
@@ -351,6 +378,13 @@ type output struct {
 
 type sim struct {
 	w      *world
+	bm     beaconmock.Mock
+	spe    uint64
+	real   bool
+	evMu   sync.Mutex
+	net    *fakeNet
+	decEv  []decideEv
+	wg     sync.WaitGroup
 	r      *rand.Rand
 	res    *Result
 	ctx    context.Context
@@ -433,7 +467,7 @@ func (s *sim) partialTerm(d core.Duty, pk core.PubKey, p core.ParSignedData) (st
 		if v, okv := s.valOf(pk); okv {
 			if ps, okp := v.pubshrs[p.ShareIdx]; okp {
 				if e2, oke := p.SignedData.(core.Eth2SignedData); oke {
-					gen = core.VerifyEth2SignedData(s.ctx, s.w.bmock, e2, ps) == nil
+					gen = core.VerifyEth2SignedData(s.ctx, s.bm, e2, ps) == nil
 				}
 			}
 		}
@@ -518,7 +552,7 @@ func (s *sim) checkOutput(nd int, where string, d core.Duty, pk core.PubKey, sd 
 		s.hit("output-not-eth2", "node %d %s %v %s: not an eth2 signed object", nd, where, d, pk)
 		return rh
 	}
-	if err := core.VerifyEth2SignedData(s.ctx, s.w.bmock, e2, v.group); err != nil {
+	if err := core.VerifyEth2SignedData(s.ctx, s.bm, e2, v.group); err != nil {
 		s.hit("invalid-signature", "node %d %s %v validator %d: signature does not verify under the group key: %v", nd, where, d, v.valIdx, err)
 	} else {
 		// independent of core/eth2signeddata.go: domain and epoch chosen here
@@ -527,12 +561,12 @@ func (s *sim) checkOutput(nd int, where string, d core.Duty, pk core.PubKey, sd 
 		switch d.Type {
 		case core.DutyAttester:
 			dom = signing.DomainBeaconAttester
-			epoch = eth2p0.Epoch(d.Slot / s.w.spe)
+			epoch = eth2p0.Epoch(d.Slot / s.spe)
 		default:
 			dom = signing.DomainSyncCommittee
-			epoch = eth2p0.Epoch(d.Slot / s.w.spe)
+			epoch = eth2p0.Epoch(d.Slot / s.spe)
 		}
-		sigData, err := signing.GetDataRoot(s.ctx, s.w.bmock, dom, epoch, root)
+		sigData, err := signing.GetDataRoot(s.ctx, s.bm, dom, epoch, root)
 		if err != nil {
 			panic(err)
 		}
@@ -556,8 +590,10 @@ func (s *sim) checkOutput(nd int, where string, d core.Duty, pk core.PubKey, sd 
 // harvest turns the tracker events of the action just performed on node nd into model labels (after
 // the store label the caller has already emitted) and feeds the output monitor.
 func (s *sim) harvest(nd *node) {
+	s.evMu.Lock()
 	evs := nd.events
 	nd.events = nil
+	s.evMu.Unlock()
 	type outinfo struct{ roots map[string]bool }
 	outs := map[string]*outinfo{}
 	for _, e := range evs {
@@ -620,7 +656,7 @@ func attData(slot uint64, spe uint64, cand int) eth2p0.AttestationData {
 
 	return eth2p0.AttestationData{
 		Slot: eth2p0.Slot(slot), Index: 0, BeaconBlockRoot: bbr,
-		Source: &eth2p0.Checkpoint{Epoch: epoch - 1, Root: src},
+		Source: &eth2p0.Checkpoint{Epoch: epoch - min(epoch, 1), Root: src},
 		Target: &eth2p0.Checkpoint{Epoch: epoch, Root: tgt},
 	}
 }
@@ -635,7 +671,7 @@ func (s *sim) attDuty(v valKeys, slot uint64) eth2v1.AttesterDuty {
 func (s *sim) candidateSet(d core.Duty, cand int) core.UnsignedDataSet {
 	set := core.UnsignedDataSet{}
 	for _, v := range s.vals {
-		set[v.pubkey] = core.AttestationData{Data: attData(d.Slot, s.w.spe, cand), Duty: s.attDuty(v, d.Slot)}
+		set[v.pubkey] = core.AttestationData{Data: attData(d.Slot, s.spe, cand), Duty: s.attDuty(v, d.Slot)}
 	}
 
 	return set
@@ -646,7 +682,7 @@ func (s *sim) signAtt(v valKeys, share tbls.PrivateKey, slot uint64, data *eth2p
 	if err != nil {
 		panic(err)
 	}
-	sigData, err := signing.GetDataRoot(s.ctx, s.w.bmock, signing.DomainBeaconAttester, data.Target.Epoch, root)
+	sigData, err := signing.GetDataRoot(s.ctx, s.bm, signing.DomainBeaconAttester, data.Target.Epoch, root)
 	if err != nil {
 		panic(err)
 	}
@@ -668,7 +704,7 @@ func (s *sim) signAtt(v valKeys, share tbls.PrivateKey, slot uint64, data *eth2p
 }
 
 func (s *sim) signSync(v valKeys, share tbls.PrivateKey, slot uint64, head eth2p0.Root) *altair.SyncCommitteeMessage {
-	sigData, err := signing.GetDataRoot(s.ctx, s.w.bmock, signing.DomainSyncCommittee, eth2p0.Epoch(slot/s.w.spe), head)
+	sigData, err := signing.GetDataRoot(s.ctx, s.bm, signing.DomainSyncCommittee, eth2p0.Epoch(slot/s.spe), head)
 	if err != nil {
 		panic(err)
 	}
@@ -688,12 +724,15 @@ func headRoot(i int, slot uint64) eth2p0.Root {
 }
 
 func (s *sim) build(n, nvals int, byz []int, v2 bool) {
+	if s.real {
+		s.net = newFakeNet(s, n)
+	}
 	s.vals = s.w.keys[n][:nvals]
 	pubShares := map[core.PubKey]map[int]tbls.PublicKey{}
 	for _, v := range s.vals {
 		pubShares[v.pubkey] = v.pubshrs
 	}
-	vf, err := parsigex.NewEth2Verifier(s.w.bmock, pubShares)
+	vf, err := parsigex.NewEth2Verifier(s.bm, pubShares)
 	if err != nil {
 		panic(err)
 	}
@@ -712,12 +751,12 @@ func (s *sim) build(n, nvals int, byz []int, v2 bool) {
 		}
 		dl := nopDeadliner{ch: make(chan core.Duty)}
 		nd.dutyDB = dutydb.NewMemDB(dl)
-		nd.vapi, err = validatorapi.NewComponent(s.w.bmock, pubShares, i+1, nil, false, 30000000)
+		nd.vapi, err = validatorapi.NewComponent(s.bm, pubShares, i+1, nil, false, 30000000)
 		if err != nil {
 			panic(err)
 		}
 		nd.psdb = parsigdb.NewMemDB(quorum(n), dl, parsigdb.NewMemDBMetadata(12, time.Unix(0, 0)))
-		nd.agg, err = sigagg.New(quorum(n), sigagg.NewVerifier(s.w.bmock))
+		nd.agg, err = sigagg.New(quorum(n), sigagg.NewVerifier(s.bm))
 		if err != nil {
 			panic(err)
 		}
@@ -749,8 +788,16 @@ func (s *sim) build(n, nvals int, byz []int, v2 bool) {
 			s.pool = append(s.pool, released{from: ndc.idx, duty: d, set: back})
 		}}
 		nd.bc = &stubBcast{out: func(core.Duty, core.SignedDataSet) {}}
-		core.Wire(nd.sched, nd.fetch, nd.cons, nd.dutyDB, nd.vapi, nd.psdb, nd.psx, nd.agg, nd.asdb, nd.bc,
-			core.WithTracing(), core.WithTracking(recTracker{ev: &nd.events}, nopInclusion{}))
+		var cons core.Consensus = nd.cons
+		tr := recTracker{ev: &nd.events, mu: &s.evMu}
+		if s.real {
+			nd.ctx, nd.cancel = context.WithCancel(s.ctx)
+			s.buildRealConsensus(nd, dl)
+			cons = nd.rcons
+			tr.onDutyDB = func(d core.Duty, set core.UnsignedDataSet, err error) { s.onDecide(ndc, d, set, err) }
+		}
+		core.Wire(nd.sched, nd.fetch, cons, nd.dutyDB, nd.vapi, nd.psdb, nd.psx, nd.agg, nd.asdb, nd.bc,
+			core.WithTracing(), core.WithTracking(tr, nopInclusion{}))
 	}
 }
 
@@ -941,7 +988,7 @@ func (s *sim) byzMake(b int, d core.Duty, decidedCand int) (core.ParSignedDataSe
 			what = append(what, "other-root")
 		}
 		if d.Type == core.DutyAttester {
-			data := attData(d.Slot, s.w.spe, rootSel)
+			data := attData(d.Slot, s.spe, rootSel)
 			att := s.signAtt(v, share, d.Slot, &data)
 			p, err := core.NewPartialVersionedAttestation(att, idx)
 			if err != nil {
@@ -1023,8 +1070,12 @@ func runScenario(w *world, sp Spec) (res *Result) {
 	res = &Result{Spec: sp, Stats: map[string]int{}}
 	ctx, cancel := context.WithCancel(context.Background())
 	defer cancel()
-	s := &sim{w: w, r: r, res: res, ctx: ctx, roots: map[string]int{}, tags: map[string]int{}, keyIDs: map[string]int{},
+	s := &sim{w: w, bm: w.bmock, spe: w.spe, r: r, res: res, ctx: ctx, roots: map[string]int{}, tags: map[string]int{}, keyIDs: map[string]int{},
 		klass: map[string]bool{}, aggd: map[string]bool{}}
+	if strings.HasPrefix(sp.Kind, "real") {
+		s.real = true
+		s.bm = w.bmock2
+	}
 	defer func() {
 		if p := recover(); p != nil {
 			res.Hits = append(res.Hits, Hit{Key: "panic", What: fmt.Sprint(p)})
@@ -1065,6 +1116,19 @@ func runScenario(w *world, sp Spec) (res *Result) {
 		if f > 0 {
 			nbyz = r.Intn(f + 1)
 		}
+	case "real":
+		// every node runs the real QBFT consensus component; faulty nodes (<= f) are either Byzantine
+		// (silent in consensus, injecting partial signatures later) or crash / never start
+		if os.Getenv("VERIF_TIER") != "thorough" {
+			n = 4
+		}
+		f = faulty(n)
+		divergent = true
+		if f > 0 {
+			nbyz = r.Intn(f + 1)
+		}
+	case "real-staleprep":
+		n, f, nbyz, divergent = 4, 1, 0, true
 	case "overbound":
 		// NOT within the property's assumptions: f+1 Byzantine nodes. Used only to show that the
 		// monitors can fire on the real components (reported separately, never as a violation).
@@ -1083,8 +1147,13 @@ func runScenario(w *world, sp Spec) (res *Result) {
 	res.Cfg = fmt.Sprintf("mkCfg %d %d [%s] Nat.even", n, quorum(n), strings.Join(bs, "; "))
 	s.build(n, nvals, byz, res.V2)
 
-	att := core.NewAttesterDuty(slotBase)
-	syn := core.NewSyncMessageDuty(slotBase + 1)
+	attSlot := uint64(slotBase)
+	if s.real {
+		// the duty whose start (slot start + 1/3 slot) is the next one at least 150 ms ahead of now
+		attSlot = uint64((time.Since(w.t0)+150*time.Millisecond-time.Second/3)/time.Second) + 1
+	}
+	att := core.NewAttesterDuty(attSlot)
+	syn := core.NewSyncMessageDuty(attSlot + 1)
 	s.duties = []core.Duty{att, syn}
 	if sp.Kind == "overbound" {
 		s.runOverbound(n, byz)
@@ -1106,7 +1175,7 @@ func runScenario(w *world, sp Spec) (res *Result) {
 	// crashes / late starts: nodes that stop (or have not begun) taking steps
 	crashAt := map[int]int{}
 	startAt := map[int]int{}
-	if sp.Kind != "happy" {
+	if sp.Kind != "happy" && !s.real {
 		for _, nd := range honest {
 			switch r.Intn(6) {
 			case 0:
@@ -1119,6 +1188,19 @@ func runScenario(w *world, sp Spec) (res *Result) {
 
 	decidedCand := -1
 	var decidedSet core.UnsignedDataSet
+	if s.real {
+		if divergent {
+			for i, nd := range honest { // every node's beacon node serves another head
+				nd.cand = i
+			}
+		}
+		decidedCand = s.runConsensusPhase(honest, att, f-nbyz, sp.Kind == "real-staleprep")
+		for _, nd := range honest {
+			if nd.crashed {
+				crashAt[nd.idx] = 0
+			}
+		}
+	}
 	triggered := map[int]bool{}
 	attSigned := map[int]bool{}
 	synSigned := map[int]int{}
@@ -1146,6 +1228,9 @@ func runScenario(w *world, sp Spec) (res *Result) {
 		nd := pick(r, alive)
 		switch c := r.Intn(100); {
 		case c < 8: // scheduler triggers the attester duty: fetch -> propose
+			if s.real {
+				continue
+			}
 			if !triggered[nd.idx] {
 				triggered[nd.idx] = true
 				s.actTrigger(nd, att)
@@ -1162,7 +1247,7 @@ func runScenario(w *world, sp Spec) (res *Result) {
 				}
 			}
 		case c < 18: // consensus delivers the decided set
-			if decidedSet != nil && !nd.decided[att] && (!lossy || r.Intn(3) > 0) {
+			if !s.real && decidedSet != nil && !nd.decided[att] && (!lossy || r.Intn(3) > 0) {
 				s.actDecide(nd, att, decidedSet)
 			}
 		case c < 30: // validator client attests
@@ -1279,6 +1364,15 @@ func TestGen(t *testing.T) {
 		for i := 0; i < n; i++ {
 			specs = append(specs, Spec{ID: i, Kind: kinds[i%len(kinds)], Seed: r.Int63()})
 		}
+		// runs in which every node also runs the REAL consensus component (real time, round timers)
+		nr := hx.IntEnv("VERIF_REAL", 12)
+		for i := 0; i < nr; i++ {
+			k := "real"
+			if i%3 == 2 {
+				k = "real-staleprep"
+			}
+			specs = append(specs, Spec{ID: 100000 + i, Kind: k, Seed: r.Int63()})
+		}
 		// a few runs OUTSIDE the assumptions (f+1 Byzantine nodes); reported apart
 		for i := 0; i < hx.IntEnv("VERIF_OVER", 3); i++ {
 			specs = append(specs, Spec{ID: n + i, Kind: "overbound", Seed: r.Int63()})
@@ -1286,8 +1380,29 @@ func TestGen(t *testing.T) {
 	}
 	results := make([]*Result, len(specs))
 	var wg sync.WaitGroup
+	// real-time runs first, in batches on an otherwise idle machine (they mostly sleep on round timers)
+	var realIdx []int
+	for i := range specs {
+		if strings.HasPrefix(specs[i].Kind, "real") {
+			realIdx = append(realIdx, i)
+		}
+	}
+	batch := hx.IntEnv("VERIF_REAL_BATCH", 12)
+	for b := 0; b < len(realIdx); b += batch {
+		for _, i := range realIdx[b:min(b+batch, len(realIdx))] {
+			wg.Add(1)
+			go func(i int) {
+				defer wg.Done()
+				results[i] = runScenario(w, specs[i])
+			}(i)
+		}
+		wg.Wait()
+	}
 	sem := make(chan struct{}, runtime.NumCPU())
 	for i := range specs {
+		if strings.HasPrefix(specs[i].Kind, "real") {
+			continue
+		}
 		wg.Add(1)
 		sem <- struct{}{}
 		go func(i int) {
